@@ -74,7 +74,7 @@ static void ser(Janet x, int depth) {
 static long nviol = 0;
 static void law(const char *name, long i, long j, long k, const char *detail) {
     nviol++;
-    if (nviol <= 200) printf("law %s %ld %ld %ld %s\n", name, i, j, k, detail ? detail : "");
+    if (nviol <= 200) { printf("law %s %ld %ld %ld %s\n", name, i, j, k, detail ? detail : ""); fflush(stdout); }  /* a later sanitizer abort must not lose it */
 }
 
 static void check_fields(Janet x, long idx, int depth) {
